@@ -96,7 +96,7 @@ class HttpWorld:
                               tuple(sorted((k.lower(), v) for k, v in req.headers.items())), body))
 
     # -- driving ------------------------------------------------------------------------------------
-    def settle(self, horizon=80):
+    def settle(self, horizon=6000):
         try:
             for _ in range(horizon):
                 q = len(self.root)
